@@ -117,7 +117,7 @@ theorem prog_spec (n : Nat) (H : History) :
   refine e2 _ _ _ ?_ ?_
   · simp [W2, World.setObs, rootObs, Lay.sc, lay, scOf, sjs]
   refine wp_newObservers (scOf (n + 1)) (mk (n + 1)) (n + 1) _ _ [] 0 _ rfl (by simp [scOf]) (W2_ser _ _ _)
-    (W2_map _ _ _) (by intro p hp; cases hp) ?_
+    (W2_map _ _ _) (by intro p hp; cases hp) ⟨_, rfl, rfl⟩ ?_
   have hol : (W2 (lay (n + 1)) [] (oMerge ((sjs (n + 1)).headD default).observable
       ((sjs (n + 1)).tail.map Subj.observable))).obs.length = 1 := rfl
   rw [hol, zip_eq]
